@@ -71,11 +71,17 @@ def run_check(pid):
 
 def main():
     only = sys.argv[1:]
-    patches = sorted(glob.glob('/tmp/C??_m?.patch'))
+    patches = sorted(glob.glob('/tmp/C??_m?.patch')) + sorted(glob.glob('/tmp/R??_n?.patch'))
     for p in patches:
         name = os.path.basename(p)[:-6]
         pid = name[:3]
-        if only and name not in only and pid not in only:
+        if pid.startswith('R'):
+            # area-based round: the property is named in the json record
+            try:
+                pid = json.load(open('/tmp/' + name + '.json'))['property'].strip()[:3]
+            except Exception:
+                pid = 'C07'
+        if only and name not in only and pid not in only and name[:3] not in only:
             continue
         dest = os.path.join('/verif/seeded', name)
         if os.path.exists(os.path.join(dest, 'meta.json')) and not only:
